@@ -1,4 +1,400 @@
 import AvroModel.Schema
+import AvroModel.Lemmas.Schema
+/-! # C14 — Schema JSON parsing and serialisation are faithful inverses
+
+Model: `AvroModel/Schema.lean` (`parseSchema` mirrors `Schema.UnmarshalJSONFrom` + the JSON library's
+default struct decoding, `marshalSchema` mirrors `Schema.MarshalJSONTo`; documents are `Json` trees
+with ordered members). JSON *text* (whitespace, escapes, syntax errors) is handled by the tokenizer of
+`go-json-experiment/json`, which is in the trusted base and exercised by the correspondence run. -/
+set_option linter.unusedSimpArgs false
 namespace Avro.C14
-theorem stub : (1 : Nat) = 1 := rfl
+open Avro
+
+/-! ## Serialising then parsing is the identity on well-formed schemas -/
+
+mutual
+private theorem mp_schema : (s : Schema) → s.wf = true → parseSchema (marshalSchema s) = .ok s
+  | .mk t none [], _ => by simp [marshalSchema, parseSchema]
+  | .mk t none (u :: us), h => by
+    simp only [Schema.wf, Bool.and_eq_true, beq_iff_eq] at h
+    have ih := mp_list (u :: us) h.2
+    simp only [marshalSchema, parseSchema, ih, h.1]
+    rfl
+  | .mk t (some (.mk ot l n ns f i v sz y)) u, h => by
+    simp only [Schema.wf, Bool.and_eq_true, SchemaObject.attrsFit, SchemaObject.wfKids, List.isEmpty_iff,
+      beq_iff_eq, Bool.or_eq_true, SchemaObject.type, SchemaObject.fields, SchemaObject.items,
+      SchemaObject.values, SchemaObject.size, SchemaObject.symbols, Schema.marshalsEmpty_iff,
+      decide_eq_true_eq] at h
+    obtain ⟨⟨hu, ⟨⟨⟨⟨⟨hot, hf⟩, hi⟩, hv⟩, hsz⟩, hy⟩, hrange⟩, ⟨hkf, hki⟩, hkv⟩ := h
+    subst hu hot
+    have ihf := mp_fields f hkf
+    have ihi := mp_schema i hki
+    have ihv := mp_schema v hkv
+    have := pOM_marshal t l n ns f i v sz y hf hi hv hsz hy (of_decide_eq_true hrange) ihf ihi ihv
+    simp only [marshalSchema, parseSchema, SchemaObject.logicalType, SchemaObject.name, SchemaObject.nspace, this]
+    rfl
+private theorem mp_list : (ss : List Schema) → Schema.wfList ss = true → parseSchemas (marshalSchemas ss) = .ok ss
+  | [], _ => by simp [marshalSchemas, parseSchemas]
+  | s :: ss, h => by
+    simp only [Schema.wfList, Bool.and_eq_true] at h
+    simp only [marshalSchemas, parseSchemas, mp_schema s h.1, mp_list ss h.2]
+    rfl
+private theorem mp_fields : (fs : List SchemaField) → SchemaField.wfList fs = true →
+    parseFieldList (marshalFields fs) = .ok fs
+  | [], _ => by simp [marshalFields, parseFieldList]
+  | .mk n t :: fs, h => by
+    simp only [SchemaField.wfList, Bool.and_eq_true] at h
+    simp only [marshalFields, parseFieldList, pFM_marshal n t (mp_schema t h.1), mp_fields fs h.2]
+    rfl
+end
+
+/-- C14 "serialising a schema yields valid JSON that parses back to an identical schema": for every
+well-formed schema value (DESIGN.md §9), at any nesting depth. -/
+theorem marshal_parse (s : Schema) (h : WF s) : parseSchema (marshalSchema s) = .ok s := mp_schema s h
+
+/-! ## Independence of key order, layout and unknown attributes
+
+Whitespace and escapes do not exist at the level of `Json` trees (they are the tokenizer's
+business). What remains of "layout" is the order of object members and the presence of unknown
+attributes, at any depth. Results are compared with the error class forgotten (`PResult.opt`):
+when a document is rejected, which of several defects is reported first may depend on the order. -/
+
+/-- `ex` are extra members that may be added to an object whose other member names are `ks`: their
+names are not known attribute names, are new and pairwise distinct, and their values are JSON
+values without duplicate member names (anything else the tokenizer accepts). -/
+def Extras (ks : List String) (ex : List (String × Json)) : Prop :=
+  (∀ e ∈ ex, e.1 ∉ knownKeys ∧ e.1 ∉ ks ∧ e.2.dupFree = true) ∧ (ex.map (·.1)).Nodup
+
+mutual
+/-- `Lay x j j'`: `j'` is the document `j` laid out differently — at every depth the members of each
+object are permuted and, when `x = true`, unknown attributes are added. -/
+def Lay (x : Bool) : Json → Json → Prop
+  | .arr xs, j' => ∃ ys, j' = .arr ys ∧ LayL x xs ys
+  | .obj ms, j' => ∃ ms1 ex ms', j' = .obj ms' ∧ LayM x ms ms1 ∧ List.Perm (ms1 ++ ex) ms' ∧
+      Extras (ms1.map (·.1)) ex ∧ (x = false → ex = [])
+  | .null, j' => j' = .null
+  | .bool b, j' => j' = .bool b
+  | .num n, j' => j' = .num n
+  | .numRaw s, j' => j' = .numRaw s
+  | .str s, j' => j' = .str s
+def LayL (x : Bool) : List Json → List Json → Prop
+  | [], ys => ys = []
+  | a :: as, ys => ∃ b bs, ys = b :: bs ∧ Lay x a b ∧ LayL x as bs
+def LayM (x : Bool) : List (String × Json) → List (String × Json) → Prop
+  | [], ms' => ms' = []
+  | (k, v) :: ms, ms' => ∃ v' r, ms' = (k, v') :: r ∧ Lay x v v' ∧ LayM x ms r
+end
+
+theorem LayM_keys {x} : (ms ms1 : List (String × Json)) → LayM x ms ms1 → ms1.map (·.1) = ms.map (·.1)
+  | [], ms1, h => by simp [LayM] at h; simp [h]
+  | (k, v) :: ms, ms1, h => by
+    simp only [LayM] at h
+    obtain ⟨v', r, rfl, _, hr⟩ := h
+    simp [LayM_keys ms r hr]
+
+
+theorem keys_eq_map : (ms : List (String × Json)) → Json.keys ms = ms.map (·.1)
+  | [] => rfl
+  | (k, v) :: ms => by simp [Json.keys, keys_eq_map ms]
+
+theorem dupFreeMembers_eq_all : (ms : List (String × Json)) → Json.dupFreeMembers ms = ms.all (fun m => m.2.dupFree)
+  | [] => rfl
+  | (k, v) :: ms => by simp [Json.dupFreeMembers, dupFreeMembers_eq_all ms]
+
+theorem firstDup_isNone_iff (ks : List String) (seen : List String) :
+    (firstDup seen ks).isNone = true ↔ ks.Nodup ∧ ∀ k ∈ ks, k ∉ seen := by
+  induction ks generalizing seen with
+  | nil => simp [firstDup]
+  | cons k ks ih =>
+    simp only [firstDup, List.contains_eq_mem]
+    by_cases hk : k ∈ seen
+    · simp [hk]
+    · rw [if_neg (by simpa using hk), ih]
+      simp only [List.nodup_cons, List.mem_cons, forall_eq_or_imp, not_or]
+      constructor
+      · rintro ⟨h1, h2⟩
+        exact ⟨⟨fun hm => (h2 k hm).1 rfl, h1⟩, hk, fun a ha => (h2 a ha).2⟩
+      · rintro ⟨⟨h1, h2⟩, _, h4⟩
+        exact ⟨h2, fun a ha => ⟨fun h => h1 (h ▸ ha), h4 a ha⟩⟩
+
+/-- `dupFree` of an object, in terms of library list predicates -/
+theorem dupFree_obj (ms : List (String × Json)) :
+    (Json.obj ms).dupFree = (decide (ms.map (·.1)).Nodup && ms.all (fun m => m.2.dupFree)) := by
+  simp only [Json.dupFree, keys_eq_map, dupFreeMembers_eq_all]
+  congr 1
+  rw [Bool.eq_iff_iff, firstDup_isNone_iff]
+  simp
+
+mutual
+theorem lay_dupFree {x} : (j : Json) → ∀ j', Lay x j j' → j'.dupFree = j.dupFree
+  | .null, j', h | .bool _, j', h | .num _, j', h | .numRaw _, j', h | .str _, j', h => by
+    simp only [Lay] at h; subst h; rfl
+  | .arr xs, j', h => by
+    simp only [Lay] at h
+    obtain ⟨ys, rfl, hl⟩ := h
+    simp only [Json.dupFree, lay_dupFreeL xs ys hl]
+  | .obj ms, j', h => by
+    simp only [Lay] at h
+    obtain ⟨ms1, ex, ms', rfl, hm, hp, ⟨hex, hnd⟩, _⟩ := h
+    have hk := LayM_keys ms ms1 hm
+    have ih := lay_dupFreeM ms ms1 hm
+    rw [dupFreeMembers_eq_all, dupFreeMembers_eq_all] at ih
+    rw [dupFree_obj, dupFree_obj, ← hp.all_eq, List.all_append, ih]
+    have hexall : ex.all (fun m => m.2.dupFree) = true := by
+      rw [List.all_eq_true]; intro e he; exact (hex e he).2.2
+    rw [hexall, Bool.and_true]
+    congr 1
+    rw [Bool.eq_iff_iff]
+    simp only [decide_eq_true_eq]
+    rw [← (hp.map (·.1)).nodup_iff, List.map_append, List.nodup_append, hk]
+    constructor
+    · exact fun h => h.1
+    · intro h
+      refine ⟨h, hnd, ?_⟩
+      intro a ha b hb hab
+      obtain ⟨e, he, rfl⟩ := List.mem_map.1 hb
+      exact (hex e he).2.1 (hk ▸ hab ▸ ha)
+theorem lay_dupFreeL {x} : (xs : List Json) → ∀ ys, LayL x xs ys → Json.dupFreeList ys = Json.dupFreeList xs
+  | [], ys, h => by simp only [LayL] at h; subst h; rfl
+  | a :: as, ys, h => by
+    simp only [LayL] at h
+    obtain ⟨b, bs, rfl, hab, hr⟩ := h
+    simp only [Json.dupFreeList, lay_dupFree a b hab, lay_dupFreeL as bs hr]
+theorem lay_dupFreeM {x} : (ms : List (String × Json)) → ∀ ms1, LayM x ms ms1 →
+    Json.dupFreeMembers ms1 = Json.dupFreeMembers ms
+  | [], ms1, h => by simp only [LayM] at h; subst h; rfl
+  | (k, v) :: ms, ms1, h => by
+    simp only [LayM] at h
+    obtain ⟨v', r, rfl, hv, hr⟩ := h
+    simp only [Json.dupFreeMembers, lay_dupFree v v' hv, lay_dupFreeM ms r hr]
+end
+
+
+theorem lay_decString {x} (a : String) (v v' : Json) (h : Lay x v v') : decString a v' = decString a v := by
+  cases v <;> simp only [Lay] at h
+  case arr xs => obtain ⟨ys, rfl, _⟩ := h; rfl
+  case obj ms => obtain ⟨_, _, _, rfl, _⟩ := h; rfl
+  all_goals subst h; rfl
+
+theorem lay_decInt {x} (a : String) (v v' : Json) (h : Lay x v v') : decInt a v' = decInt a v := by
+  cases v <;> simp only [Lay] at h
+  case arr xs => obtain ⟨ys, rfl, _⟩ := h; rfl
+  case obj ms => obtain ⟨_, _, _, rfl, _⟩ := h; rfl
+  all_goals subst h; rfl
+
+theorem lay_mapM_decString {x} (a : String) : (xs ys : List Json) → LayL x xs ys →
+    ys.mapM (decString a) = xs.mapM (decString a)
+  | [], ys, h => by simp only [LayL] at h; subst h; rfl
+  | b :: bs, ys, h => by
+    simp only [LayL] at h
+    obtain ⟨c, cs, rfl, hbc, hr⟩ := h
+    simp only [List.mapM_cons, lay_decString a b c hbc, lay_mapM_decString a bs cs hr]
+
+theorem lay_decStrings {x} (a : String) (v v' : Json) (h : Lay x v v') : decStrings a v' = decStrings a v := by
+  cases v <;> simp only [Lay] at h
+  case arr xs => obtain ⟨ys, rfl, hl⟩ := h; simp only [decStrings, lay_mapM_decString a xs ys hl]
+  case obj ms => obtain ⟨_, _, _, rfl, _⟩ := h; rfl
+  all_goals subst h; rfl
+
+/-- decoding one member is insensitive to the layout of its value, given that for the value -/
+theorem decodeAttr_congr (k : String) (v v' : Json) {f f' g g'}
+    (hs : decString k v' = decString k v) (hi : decInt k v' = decInt k v) (hy : decStrings k v' = decStrings k v)
+    (hd : v'.dupFree = v.dupFree)
+    (hf : PResult.opt (f' ()) = PResult.opt (f ())) (hg : PResult.opt (g' ()) = PResult.opt (g ())) :
+    PResult.opt (decodeAttr k v' f' g') = PResult.opt (decodeAttr k v f g) := by
+  unfold decodeAttr
+  rw [hs, hi, hy, hd]
+  repeat' split
+  all_goals first
+    | rfl
+    | exact PResult.opt_bind_congr hf (fun _ => rfl)
+    | exact PResult.opt_bind_congr hg (fun _ => rfl)
+
+theorem decodeFAttr_congr (k : String) (v v' : Json) {f f'}
+    (hs : decString k v' = decString k v) (hd : v'.dupFree = v.dupFree)
+    (hf : PResult.opt (f' ()) = PResult.opt (f ())) :
+    PResult.opt (decodeFAttr k v' f') = PResult.opt (decodeFAttr k v f) := by
+  unfold decodeFAttr
+  rw [hs, hd]
+  repeat' split
+  all_goals first
+    | rfl
+    | exact PResult.opt_bind_congr hf (fun _ => rfl)
+
+
+theorem decObj_unknown (k : String) (v : Json) (hk : k ∉ knownKeys) (hd : v.dupFree = true) :
+    decObj k v = .ok none := by
+  simp only [knownKeys, objectKeys, List.mem_cons, List.not_mem_nil, or_false, not_or] at hk
+  simp [decObj, decodeAttr, hk, hd]
+
+theorem decFld_unknown (k : String) (v : Json) (hk : k ∉ knownKeys) (hd : v.dupFree = true) :
+    decFld k v = .ok none := by
+  simp only [knownKeys, objectKeys, List.mem_cons, List.not_mem_nil, or_false, not_or] at hk
+  simp [decFld, decodeFAttr, hk, hd]
+
+/-- one object level: members laid out differently (values already known to be insensitive) -/
+theorem fold_layout {α σ} (dec : String → Json → PResult (Option α)) (app : Option α → σ → σ)
+    (hc : Commutes dec app) (hnone : ∀ st, app none st = st)
+    (hunk : ∀ k v, k ∉ knownKeys → v.dupFree = true → dec k v = .ok none)
+    (ms ms1 ex ms' : List (String × Json)) (st : σ)
+    (e1 : PResult.opt (foldMembers dec app [] st ms1) = PResult.opt (foldMembers dec app [] st ms))
+    (hp : List.Perm (ms1 ++ ex) ms') (hex : Extras (ms1.map (·.1)) ex) :
+    PResult.opt (foldMembers dec app [] st ms') = PResult.opt (foldMembers dec app [] st ms) := by
+  have e2 : foldMembers dec app [] st (ms1 ++ ex) = foldMembers dec app [] st ms1 :=
+    fold_append_extras dec app hnone ms1 ex (fun e he => hunk e.1 e.2 (hex.1 e he).1 (hex.1 e he).2.2)
+      hex.2 (fun e he => (hex.1 e he).2.1) [] (fun _ _ => by simp) st
+  rw [← fold_perm dec app hc hp [] st, e2, e1]
+
+mutual
+theorem lay_schema {x} : (j : Json) → ∀ j', Lay x j j' →
+    PResult.opt (parseSchema j') = PResult.opt (parseSchema j)
+  | .null, j', h | .bool _, j', h | .num _, j', h | .numRaw _, j', h | .str _, j', h => by
+    simp only [Lay] at h; subst h; rfl
+  | .arr xs, j', h => by
+    simp only [Lay] at h
+    obtain ⟨ys, rfl, hl⟩ := h
+    simp only [parseSchema]
+    exact PResult.opt_bind_congr (lay_schemas xs ys hl) (fun _ => rfl)
+  | .obj ms, j', h => by
+    simp only [Lay] at h
+    obtain ⟨ms1, ex, ms', rfl, hm, hp, hex, _⟩ := h
+    have e1 := lay_members ms ms1 hm [] SchemaObject.zero
+    simp only [pOM_eq_fold] at e1
+    simp only [parseSchema, pOM_eq_fold]
+    exact PResult.opt_bind_congr
+      (fold_layout decObj applyAttr commutes_obj (fun _ => rfl) decObj_unknown ms ms1 ex ms' _ e1 hp hex)
+      (fun _ => rfl)
+theorem lay_schemas {x} : (xs : List Json) → ∀ ys, LayL x xs ys →
+    PResult.opt (parseSchemas ys) = PResult.opt (parseSchemas xs)
+  | [], ys, h => by simp only [LayL] at h; subst h; rfl
+  | a :: as, ys, h => by
+    simp only [LayL] at h
+    obtain ⟨b, bs, rfl, hab, hr⟩ := h
+    simp only [parseSchemas]
+    exact PResult.opt_bind_congr (lay_schema a b hab)
+      (fun _ => PResult.opt_bind_congr (lay_schemas as bs hr) (fun _ => rfl))
+theorem lay_fields {x} : (j : Json) → ∀ j', Lay x j j' →
+    PResult.opt (parseFields j') = PResult.opt (parseFields j)
+  | .null, j', h | .bool _, j', h | .num _, j', h | .numRaw _, j', h | .str _, j', h => by
+    simp only [Lay] at h; subst h; rfl
+  | .arr xs, j', h => by
+    simp only [Lay] at h
+    obtain ⟨ys, rfl, hl⟩ := h
+    simp only [parseFields]
+    exact lay_fieldList xs ys hl
+  | .obj ms, j', h => by
+    simp only [Lay] at h
+    obtain ⟨ms1, ex, ms', rfl, _⟩ := h
+    rfl
+theorem lay_fieldList {x} : (xs : List Json) → ∀ ys, LayL x xs ys →
+    PResult.opt (parseFieldList ys) = PResult.opt (parseFieldList xs)
+  | [], ys, h => by simp only [LayL] at h; subst h; rfl
+  | a :: as, ys, h => by
+    simp only [LayL] at h
+    obtain ⟨b, bs, rfl, hab, hr⟩ := h
+    simp only [parseFieldList]
+    exact PResult.opt_bind_congr (lay_field a b hab)
+      (fun _ => PResult.opt_bind_congr (lay_fieldList as bs hr) (fun _ => rfl))
+theorem lay_field {x} : (j : Json) → ∀ j', Lay x j j' →
+    PResult.opt (parseField j') = PResult.opt (parseField j)
+  | .null, j', h | .bool _, j', h | .num _, j', h | .numRaw _, j', h | .str _, j', h => by
+    simp only [Lay] at h; subst h; rfl
+  | .arr xs, j', h => by
+    simp only [Lay] at h
+    obtain ⟨ys, rfl, hl⟩ := h
+    rfl
+  | .obj ms, j', h => by
+    simp only [Lay] at h
+    obtain ⟨ms1, ex, ms', rfl, hm, hp, hex, _⟩ := h
+    have e1 := lay_fmembers ms ms1 hm [] SchemaField.zero
+    simp only [pFM_eq_fold] at e1
+    simp only [parseField, pFM_eq_fold]
+    exact fold_layout decFld applyFAttr commutes_fld (fun _ => rfl) decFld_unknown ms ms1 ex ms' _ e1 hp hex
+theorem lay_members {x} : (ms : List (String × Json)) → ∀ ms1, LayM x ms ms1 → ∀ seen o,
+    PResult.opt (parseObjMembers seen o ms1) = PResult.opt (parseObjMembers seen o ms)
+  | [], ms1, h, seen, o => by simp only [LayM] at h; subst h; rfl
+  | (k, v) :: ms, ms1, h, seen, o => by
+    simp only [LayM] at h
+    obtain ⟨v', r, rfl, hv, hr⟩ := h
+    simp only [parseObjMembers]
+    split
+    · rfl
+    · exact PResult.opt_bind_congr
+        (decodeAttr_congr k v v' (lay_decString k v v' hv) (lay_decInt k v v' hv) (lay_decStrings k v v' hv)
+          (lay_dupFree v v' hv) (lay_schema v v' hv) (lay_fields v v' hv))
+        (fun a => lay_members ms r hr _ _)
+theorem lay_fmembers {x} : (ms : List (String × Json)) → ∀ ms1, LayM x ms ms1 → ∀ seen f,
+    PResult.opt (parseFieldMembers seen f ms1) = PResult.opt (parseFieldMembers seen f ms)
+  | [], ms1, h, seen, f => by simp only [LayM] at h; subst h; rfl
+  | (k, v) :: ms, ms1, h, seen, f => by
+    simp only [LayM] at h
+    obtain ⟨v', r, rfl, hv, hr⟩ := h
+    simp only [parseFieldMembers]
+    split
+    · rfl
+    · exact PResult.opt_bind_congr
+        (decodeFAttr_congr k v v' (lay_decString k v v' hv) (lay_dupFree v v' hv) (lay_schema v v' hv))
+        (fun a => lay_fmembers ms r hr _ _)
+end
+
+
+mutual
+theorem Lay_refl {x} : (j : Json) → Lay x j j
+  | .null | .bool _ | .num _ | .numRaw _ | .str _ => by simp [Lay]
+  | .arr xs => by simp only [Lay]; exact ⟨xs, rfl, LayL_refl xs⟩
+  | .obj ms => by
+    simp only [Lay]
+    exact ⟨ms, [], ms, rfl, LayM_refl ms, by simp, ⟨by simp, by simp⟩, fun _ => rfl⟩
+theorem LayL_refl {x} : (xs : List Json) → LayL x xs xs
+  | [] => by simp [LayL]
+  | a :: as => by simp only [LayL]; exact ⟨a, as, rfl, Lay_refl a, LayL_refl as⟩
+theorem LayM_refl {x} : (ms : List (String × Json)) → LayM x ms ms
+  | [] => by simp [LayM]
+  | (k, v) :: ms => by simp only [LayM]; exact ⟨v, ms, rfl, Lay_refl v, LayM_refl ms⟩
+end
+
+/-- Master statement: a document and any re-layout of it (members permuted and unknown attributes
+added, at every depth) are either both rejected or parse to the same schema. -/
+theorem layout_invariant {x : Bool} {j j' : Json} (h : Lay x j j') :
+    PResult.opt (parseSchema j') = PResult.opt (parseSchema j) := lay_schema j j' h
+
+/-- `j ≈ₚ j'`: same document up to the order of object members at any depth. -/
+def JPerm (j j' : Json) : Prop := Lay false j j'
+
+/-- permuting the members of the top-level object is an instance of `JPerm` (deeper levels: by the
+recursive clauses of `Lay`) -/
+theorem JPerm_of_perm {ms ms' : List (String × Json)} (h : List.Perm ms ms') : JPerm (.obj ms) (.obj ms') := by
+  simp only [JPerm, Lay]
+  exact ⟨ms, [], ms', rfl, LayM_refl ms, by simpa using h, ⟨by simp, by simp⟩, fun _ => rfl⟩
+
+/-- C14 "independent of JSON key order": permuting object members at any depth does not change the
+result of parsing. -/
+theorem key_order {j j' : Json} (h : JPerm j j') :
+    PResult.opt (parseSchema j') = PResult.opt (parseSchema j) := layout_invariant h
+
+/-- C14 "independent of unknown attributes": inserting, at any position of an object, a member whose
+name is not an attribute name (`doc`, `default`, `aliases`, `order`, `precision`, …; names are
+case-sensitive, so `Type` counts as unknown) and whose value is any JSON value does not change the
+result. (`k ∉ keys`, `x.dupFree`: the tokenizer rejects repeated member names anywhere, see
+`malformed_duplicate`.) Insertion at deeper levels: `layout_invariant` with `Lay true`. -/
+theorem unknown_attr (pre post : List (String × Json)) (k : String) (x : Json)
+    (hk : k ∉ knownKeys) (hnew : k ∉ (pre ++ post).map (·.1)) (hx : x.dupFree = true) :
+    PResult.opt (parseSchema (.obj (pre ++ (k, x) :: post))) = PResult.opt (parseSchema (.obj (pre ++ post))) := by
+  apply layout_invariant (x := true)
+  simp only [Lay]
+  refine ⟨pre ++ post, [(k, x)], _, rfl, LayM_refl _, ?_, ⟨?_, by simp⟩, by simp⟩
+  · exact (List.perm_append_singleton (k, x) (pre ++ post)).trans List.perm_middle.symm
+  · intro e he
+    simp only [List.mem_singleton] at he
+    subst he
+    exact ⟨hk, hnew, hx⟩
+
+/-- C14 "parsing preserves structure": take any well-formed schema value `s` (type, name, namespace,
+logical type, fields in order, items, values, size, symbols, union branches in order), write it as
+a document in ANY layout — members of every object in any order, unknown attributes added anywhere —
+and parsing returns exactly `s`. -/
+theorem structure_preserved (s : Schema) (h : WF s) {j : Json} (hl : Lay true (marshalSchema s) j) :
+    PResult.opt (parseSchema j) = some s := by
+  rw [layout_invariant hl, marshal_parse s h]; rfl
+
 end Avro.C14
